@@ -464,6 +464,111 @@ let sem_c13_fresh (e : Sexp.t) : Sexp.t =
   | _ -> bad "sem_c13_fresh: %s" (to_string e)
 
 (* ---------- sem_c11 ---------- *)
+(* the payload of an error of ExternalEquivalenceTask::decompose, judged against the task by hand
+   (no use of the payload functions of Model/External.v); Some reason = wrong *)
+let c11_payload (t : M.External.ext_task) is_tight hpr (v : string) (payload : Sexp.t list) : string option =
+  let ug = t.et_user_guide in
+  let inputs = List.filter_map (function UGInput p -> Some p | _ -> None) ug in
+  let outputs = List.filter_map (function UGOutput p -> Some p | _ -> None) ug in
+  let ug_formulas = List.filter_map (function UGFormula a -> Some a | _ -> None) ug in
+  let spec_program = match t.et_specification with M.Datatypes.Coq_inl p -> [ p ] | _ -> [] in
+  let spec_formulas = match t.et_specification with M.Datatypes.Coq_inr s -> s | _ -> [] in
+  let programs = t.et_program :: spec_program in
+  let heads (p : M.Asp.program) =
+    List.filter_map (fun (r : M.Asp.rule) -> match r.rhead with
+        | M.Asp.HBasic a | M.Asp.HChoice a -> Some { psym = a.apred; parity = Conv.nat_of_int (List.length a.aterms) }
+        | M.Asp.HFalsity -> None) p in
+  let is_assumption (a : aformula_annot) = a.an_role = RAssumption in
+  let check l = List.fold_left (fun acc (c, why) -> match acc with Some _ -> acc | None -> if c then None else Some why) None l in
+  let preds_payload k = match payload with [ ps ] -> k (list_of pred ps) | _ -> Some "payload is not one list of predicates" in
+  let annot_payload k = match payload with [ a ] -> k (annot a) | _ -> Some "payload is not one annotated formula" in
+  let same_set a b = List.for_all (fun x -> List.mem x b) a && List.for_all (fun x -> List.mem x a) b in
+  let safe f = try f () with Ops_tasks.Missing _ -> true in
+  match v with
+  | "UnsupportedFormulaRepresentation" -> check [ (payload = [], "unexpected payload"); (t.et_repr = M.Strong.ReprMu, "the representation is tau-star") ]
+  | "NonTightProgram" | "ProgramContainsPrivateRecursion" ->
+    (match payload with
+     | [ p ] ->
+       let p = program p in
+       check [ (List.mem p programs, "the program is neither the program nor the specification program of the task");
+               (v <> "NonTightProgram" || not (is_tight p), "the program is tight");
+               (v <> "NonTightProgram" || not t.et_bypass_tightness, "--bypass-tightness is set");
+               (v <> "ProgramContainsPrivateRecursion"
+                || (p = t.et_program && safe (fun () -> hpr p (M.External.task_prog_private t)))
+                || (List.mem p spec_program && safe (fun () -> hpr p (M.External.task_spec_private t))),
+                "the program has no private recursion") ]
+     | _ -> Some "payload is not one program")
+  | "InputOutputPredicatesOverlap" ->
+    preds_payload (fun ps -> check [
+        (ps <> [], "empty list");
+        (List.for_all (fun p -> List.mem p inputs && List.mem p outputs) ps, "a predicate is not declared both input and output");
+        (List.for_all (fun p -> not (List.mem p outputs) || List.mem p ps) inputs, "an overlapping predicate is missing") ])
+  | "InputPredicateInRuleHead" ->
+    preds_payload (fun ps -> check [
+        (ps <> [], "empty list");
+        (List.for_all (fun p -> List.mem p inputs) ps, "a predicate is not a declared input");
+        (List.exists (fun prog -> same_set ps (List.filter (fun p -> List.mem p (heads prog)) inputs)) programs,
+         "not the input predicates heading a rule of the program or of the specification program") ])
+  | "OutputPredicateInSpecificationAssumption" | "OutputPredicateInUserGuideAssumption" ->
+    let fs = if v = "OutputPredicateInSpecificationAssumption" then spec_formulas else ug_formulas in
+    preds_payload (fun ps -> check [
+        (ps <> [], "empty list");
+        (List.for_all (fun p -> List.mem p outputs) ps, "a predicate is not a declared output");
+        (List.exists (fun a -> is_assumption a && same_set ps (List.filter (fun p -> List.mem p outputs) (predicates a.an_formula))) fs,
+         "not the output predicates of one assumption") ])
+  | "PlaceholdersWithIdenticalNamesDifferentSorts" ->
+    (match payload with
+     | [ n ] ->
+       let n = str n in
+       let sorts = uniq (List.filter_map (function UGPlaceholder (m, s) when m = n -> Some s | _ -> None) ug) in
+       check [ (List.length sorts >= 2, "the user guide does not declare this name with two sorts") ]
+     | _ -> Some "payload is not one name")
+  | "AssumptionContainsNonInputSymbols" ->
+    annot_payload (fun a ->
+        let private_of_program =
+          List.filter (fun p -> not (List.mem p inputs || List.mem p outputs)) (M.Asp.program_preds t.et_program) in
+        let foreign allowed = List.exists (fun p -> not (List.mem p allowed)) (predicates a.an_formula) in
+        check [ (is_assumption a, "not an assumption");
+                ((List.mem a ug_formulas && foreign inputs) || (List.mem a spec_formulas && foreign (inputs @ private_of_program)),
+                 "not an assumption of the user guide / specification with a predicate that is not allowed there") ])
+  | "SpecificationContainsUnsupportedRoles" ->
+    annot_payload (fun a -> check [ (List.mem a spec_formulas, "not a formula of the specification");
+                                    (a.an_role <> RAssumption && a.an_role <> RSpec, "the role is supported") ])
+  | "ProofOutlineError" ->
+    (* the carried formula / predicate belongs to an entry of the proof outline (placeholders replaced;
+       for lemmas: closed, quantifiers joined) *)
+    let m = M.Outline.ph_of_fconsts (M.External.ug_placeholders ug) in
+    let entries = List.map (M.Outline.rp_annot m) t.et_proof_outline in
+    let with_role rs = List.filter (fun (a : aformula_annot) -> List.mem a.an_role rs) entries in
+    let closed (a : aformula_annot) =
+      (M.Outline.rp_annot m { a with an_formula = M.Outline.universal_closure_with_quantifier_joining a.an_formula }).an_formula in
+    let rec head = function
+      | FQ (QForall, _, f) -> head f
+      | FBin (CIff, FAtomic (AAtom (p, ts)), _) -> Some { psym = p; parity = Conv.nat_of_int (List.length ts) }
+      | _ -> None in
+    let def_formula f = check [ (List.exists (fun (a : aformula_annot) -> a.an_formula = f) (with_role [ RDefinition ]), "not the formula of a definition of the outline") ] in
+    let ind_formula f = check [ (List.exists (fun a -> closed a = f) (with_role [ RInductiveLemma ]), "not the closed formula of an inductive lemma of the outline") ] in
+    (match payload with
+     | [ S "AnnotatedFormulaWithInvalidRole"; a ] ->
+       check [ (List.mem (annot a) (with_role [ RAssumption; RSpec ]), "not an assumption / spec entry of the outline") ]
+     | [ S "TakenPredicate"; p ] ->
+       let p = pred p in
+       check [ (List.exists (fun (a : aformula_annot) -> head a.an_formula = Some p) (with_role [ RDefinition ]), "not the predicate defined by a definition of the outline") ]
+     | [ S "UndefinedRhsPredicate"; f; p ] ->
+       let f = formula f and p = pred p in
+       (match def_formula f with Some w -> Some w | None ->
+          check [ (List.mem p (predicates f), "the predicate does not occur in the definition") ])
+     | [ S "TermsInDefinition"; tm; f ] ->
+       let f = formula f and tm = gterm tm in
+       (match def_formula f with Some w -> Some w | None ->
+          check [ ((match f with FQ (QForall, _, FBin (CIff, FAtomic (AAtom (_, ts)), _)) -> List.mem tm ts | _ -> false), "not an argument of the defined atom");
+                  (M.Fol.gterm_to_var tm = None, "the term is a variable") ])
+     | [ S ("DuplicatedVariables" | "FreeRhsVariables" | "DefinedPredicateVariableListMismatch" | "MalformedDefinition"); f ] -> def_formula (formula f)
+     | [ S ("MalformedInductiveLemma" | "MalformedInductiveAntecedent" | "MalformedInductiveVariables" | "MalformedInductiveTerm"); f ] -> ind_formula (formula f)
+     | [ S "InvalidRoleForGeneralLemma"; _ ] -> Some "InvalidRoleForGeneralLemma cannot be returned by from_specification"
+     | _ -> Some "malformed proof-outline payload")
+  | _ -> Some "unknown variant"
+
 let sem_c11 (e : Sexp.t) : Sexp.t =
   match e with
   | L [ _; L [ A "none" ] ] -> ok 0
@@ -493,11 +598,16 @@ let sem_c11 (e : Sexp.t) : Sexp.t =
          (match List.find_opt (fun (_, _, c) -> not (c ())) conds with
           | Some (what, _, _) -> L [ A "cex"; S "problems were emitted although a condition is violated"; S what ]
           | None -> ok 7)
-       | L [ A "err"; S v ] ->
-         (* a refusal must be justified: the condition the error names is indeed violated *)
+       | L (A "err" :: S v :: payload) ->
+         (* a refusal must be justified: the condition the error names is indeed violated ... *)
          (match List.find_opt (fun (_, n, _) -> n = v) conds with
-          | Some (what, _, c) -> if c () then L [ A "cex"; S "refused although the named condition holds"; S what ] else ok 1
-          | None -> ok 0)
+          | Some (what, _, c) when c () -> L [ A "cex"; S "refused although the named condition holds"; S what ]
+          | _ ->
+            (* ... and the value the error carries names the violation (audit B16): an independent
+               check of the payload against the task *)
+            (match c11_payload t is_tight hpr v payload with
+             | Some why -> L (A "cex" :: S "the value carried by the error does not name a violation of the task" :: S v :: S why :: payload)
+             | None -> ok 1))
        | _ -> ok 0
      with Ops_tasks.Missing n -> L [ A "cex"; S "component not supplied"; S n ])
   | _ -> bad "sem_c11: %s" (to_string e)
